@@ -143,6 +143,24 @@ func c34(c *Ctx) {
 			n = r.Intn(14)
 		}
 		var pairs []string
+		if r.Intn(6) == 0 {
+			// long lists with many duplicated names and pairwise distinct values: "last value wins" depends on
+			// the sort being stable, and library sorts only become unstable past their small-slice cut-off
+			// (12 elements in Go's pdqsort); seeded change C34-2
+			n = 13 + r.Intn(70)
+			sub := make([]string, 2+r.Intn(6))
+			for k := range sub {
+				sub[k] = r.Pick(nameAlpha)
+			}
+			for j := 0; j < n; j++ {
+				if r.Intn(12) == 0 {
+					pairs = append(pairs, r.Pick(nameAlpha)+"="+r.Pick(valAlpha))
+				} else {
+					pairs = append(pairs, r.Pick(sub)+"="+fmt.Sprint(j))
+				}
+			}
+			n = 0
+		}
 		for j := 0; j < n; j++ {
 			switch k := r.Intn(20); {
 			case k == 0:
